@@ -61,7 +61,10 @@ func plan(thorough bool) []item {
 	if thorough {
 		n = len(universe)
 	}
-	layouts := []int{0, 1, 2, 3}
+	layouts := []int{0, 1, 2}
+	if thorough {
+		layouts = []int{0, 1, 2, 3}
+	}
 	// Simplest first: small subsets (by mask value) before large ones, formats and layouts inside.
 	for mask := uint32(1); mask < 1<<uint(n); mask++ {
 		for _, f := range formats {
@@ -156,7 +159,7 @@ func TestCheck(t *testing.T) {
 			"bound_positions_sx": strings.Join(px.bnd, " "),
 			"probe_positions_sx": strings.Join(px.prb, " "),
 			"formats":            formats,
-			"layouts":            layoutNames(),
+			"layouts":            layoutNames(thorough),
 			"transforms":         xformNames(thorough),
 		})
 	})
@@ -174,9 +177,13 @@ func entStrings(thorough bool) []string {
 	return out
 }
 
-func layoutNames() []string {
+func layoutNames(thorough bool) []string {
 	var out []string
-	for _, l := range layoutMenu {
+	menu := layoutMenu
+	if !thorough {
+		menu = layoutMenu[:3]
+	}
+	for _, l := range menu {
 		out = append(out, fmt.Sprintf("%s(block=%d,index=%d)", l.Name, l.Block, l.Index))
 	}
 	return out
